@@ -63,6 +63,8 @@ pub struct IndSys {
 pub struct IState {
 	pub imp: Box<dyn IndInst>,
 	pub rf: Box<dyn IndRef>,
+	/// implementation-following variant for indicators with a recorded doc-vs-code discrepancy
+	pub alt: Option<Box<dyn IndRef>>,
 	pub cfg: usize,
 	pub prev: Candle,
 	/// the last action was a shift of the previous candle by this much (0: an absolute symbol)
@@ -117,7 +119,8 @@ impl System for IndSys {
 			for c0 in &self.c0s {
 				let Ok(Ok(imp)) = catch(|| c.init(c0)) else { continue };
 				let Some(rf) = refmodel::ind::make(c.const_name(), &rcfg, &rc(c0)) else { continue };
-				v.push((IState { imp, rf, cfg: i, prev: *c0, trend: 0 }, format!("{} {} c0={}", c.const_name(), c.to_json().unwrap_or_default(), In::C(*c0).show())));
+				let alt = refmodel::ind::make_alt(c.const_name(), &rcfg, &rc(c0));
+				v.push((IState { imp, rf, alt, cfg: i, prev: *c0, trend: 0 }, format!("{} {} c0={}", c.const_name(), c.to_json().unwrap_or_default(), In::C(*c0).show())));
 			}
 		}
 		v
@@ -184,7 +187,15 @@ impl System for IndSys {
 			Ok(v) => v,
 			Err(p) => return Step::Violation(Failure::new(format!("{name}/harness/reference-panicked"), format!("{}: {}", p.at(), p.msg))),
 		};
+		let (alt_v, alt_s) = match n.alt.as_mut() {
+			Some(alt) => match catch(|| (alt.values(&r_c), alt.signals(&r_c, &own))) {
+				Ok((v, s)) => (Some(v), Some(s)),
+				Err(_) => (None, None),
+			},
+			None => (None, None),
+		};
 		let mut exempt = false;
+		let mut cont: Option<Failure> = None;
 		match self.oracle {
 			Oracle::Values => {
 				if want_v.len() != own.len() {
@@ -199,7 +210,14 @@ impl System for IndSys {
 					if !q.contains(*o) {
 						let class = n.rf.class();
 						let class = if class.is_empty() { String::new() } else { format!("/{class}") };
-						return Step::Violation(Failure::new(format!("{name}/value#{i}/differs-from-formula{class}"), format!("value #{i} = {o:?}, formula {:?} ± {:.3e} (off by {:.3e})", q.v, q.r, (o - q.v).abs())));
+						// does the implementation-following variant explain it? then it is the recorded discrepancy
+						let alt_ok = alt_v.as_ref().map(|a| a.get(i).map(|aq| !aq.is_defined() || aq.contains(*o)).unwrap_or(false)).unwrap_or(false);
+						let which = if alt_ok { "differs-from-documented-formula/equals-implementation-reading" } else if alt_v.is_some() { "differs-from-formula/and-from-implementation-reading" } else { "differs-from-formula" };
+						let f = Failure::new(format!("{name}/value#{i}/{which}{class}"), format!("value #{i} = {o:?}, formula {:?} ± {:.3e} (off by {:.3e})", q.v, q.r, (o - q.v).abs()));
+						// the reference does not consume the implementation's values: exploration continues
+						if cont.is_none() {
+							cont = Some(f);
+						}
 					}
 				}
 			}
@@ -219,7 +237,11 @@ impl System for IndSys {
 						Sig::None => {
 							st.silent.fetch_add(1, Ordering::Relaxed);
 							if gs.is_some() && gs != Some(0) {
-								return Step::Violation(Failure::new(format!("{name}/signal#{i}/fires-without-condition"), format!("signal #{i} = {g:?}, documented rule says no signal (own values {own:?})")));
+								let which = alt_class(&alt_s, i, gs);
+								let f = Failure::new(format!("{name}/signal#{i}/fires-without-condition{which}"), format!("signal #{i} = {g:?}, documented rule says no signal (own values {own:?})"));
+								if cont.is_none() {
+									cont = Some(f);
+								}
 							}
 						}
 						Sig::S(k) => {
@@ -236,18 +258,38 @@ impl System for IndSys {
 							};
 							if !ok {
 								let kind = if gs.is_none() || gs == Some(0) { "silent-although-condition-holds" } else if gs.map(|x| x.signum()) != Some(k.signum()) { "wrong-direction" } else { "wrong-strength" };
-								return Step::Violation(Failure::new(format!("{name}/signal#{i}/{kind}"), format!("signal #{i} = {g:?}, documented rule gives strength {k} (own values {own:?})")));
+								let which = alt_class(&alt_s, i, gs);
+								let f = Failure::new(format!("{name}/signal#{i}/{kind}{which}"), format!("signal #{i} = {g:?}, documented rule gives strength {k} (own values {own:?})"));
+								if cont.is_none() {
+									cont = Some(f);
+								}
 							}
 						}
 					}
 				}
 			}
 		}
+		if let Some(f) = cont {
+			return Step::ViolationContinue(n, f);
+		}
 		if exempt {
 			Step::Exempt(n, "formula undefined / rule silent")
 		} else {
 			Step::Next(n)
 		}
+	}
+}
+
+/// "/equals-implementation-reading" when the implementation-following variant predicts the observed signal
+fn alt_class(alt_s: &Option<Vec<Sig>>, i: usize, gs: Option<i32>) -> &'static str {
+	match alt_s {
+		None => "",
+		Some(a) => match a.get(i) {
+			Some(Sig::Any) => "/equals-implementation-reading",
+			Some(Sig::None) if gs.is_none() || gs == Some(0) => "/equals-implementation-reading",
+			Some(Sig::S(k)) if gs == Some(*k) || (gs.is_none() && *k == 0) => "/equals-implementation-reading",
+			_ => "/and-differs-from-implementation-reading",
+		},
 	}
 }
 
